@@ -33,7 +33,7 @@ def run(tier, seed, rep):
     rng = random.Random(seed * 694847533 + 59)
     with ThreadPoolExecutor(max_workers=1) as ex:
         mc = ex.submit(model, tier)
-        defs = [MG.prop_special(k + 1, k) for k in range(5)]
+        defs = [MG.prop_special(k + 1, k) for k in range(8)]
         defs += [MG.prop_def(rng, len(defs) + k + 1) for k in range(sz["sample"])]
         by_id = {E["id"]: E for E in defs}
         files = {E["id"]: MG.prop_module(E, rng) for E in defs}
